@@ -2105,3 +2105,122 @@ func E5TextMatrixComplete(c *core.Ctx, r *core.Report) {
 	r.Count("E5.text-matrix-decisions", n)
 	r.Floor("E5.text-matrix-decisions", 1)
 }
+
+// E5JPEGColorSpace: the colour space declared for a DCT image depends on what the encoder writes.
+func E5JPEGColorSpace(c *core.Ctx, r *core.Report) {
+	r.Rule("E5.jpeg-colorspace", "pdfPageWriter.embedImage: when the caller's image is handed to jpeg.Encode as it is, the number of components in the stream depends on the image's concrete type (one for *image.Gray, three otherwise), so the /ColorSpace entry of the image dictionary must not be a constant: it is a variable that the JPEG branch sets under a test of the image's type. A constant DeviceRGB makes a grayscale JPEG an image whose stream does not decode to its declared colour space")
+	p := c.MustPkg(pdfRel)
+	info := p.TypesInfo
+	fd := core.MustFuncDecl(p, "pdfPageWriter.embedImage")
+	r.Func("pdf.pdfPageWriter.embedImage")
+	key := "pdf.pdfPageWriter.embedImage|colour space of a DCT image follows the encoded image"
+	// is the parameter image passed to jpeg.Encode directly?
+	var imgObj types.Object
+	direct := false
+	ast.Inspect(fd.Body, func(m ast.Node) bool {
+		call, ok := m.(*ast.CallExpr)
+		if !ok || !core.IsPkgFunc(info, call, "image/jpeg", "Encode") || len(call.Args) < 2 {
+			return true
+		}
+		if id, ok := core.Unparen(call.Args[1]).(*ast.Ident); ok {
+			o := core.ObjOf(info, id)
+			for _, f := range fd.Type.Params.List {
+				for _, nm := range f.Names {
+					if info.Defs[nm] == o {
+						imgObj, direct = o, true
+					}
+				}
+			}
+		}
+		return true
+	})
+	if !direct {
+		r.OK("E5.jpeg-colorspace", key, c.Pos(fd.Pos()), "the image is not handed to jpeg.Encode as it is (converted first, or no JPEG branch)")
+		r.Count("E5.jpeg-branches", 1)
+		r.Floor("E5.jpeg-branches", 1)
+		return
+	}
+	// the dict with Subtype Image and Filter: ColorSpace value
+	var csVal ast.Expr
+	ast.Inspect(fd.Body, func(m ast.Node) bool {
+		cl, ok := m.(*ast.CompositeLit)
+		if !ok {
+			return true
+		}
+		var cs ast.Expr
+		hasFilterVar := false
+		for _, el := range cl.Elts {
+			kv, ok := el.(*ast.KeyValueExpr)
+			if !ok {
+				continue
+			}
+			if v := core.ConstVal(info, kv.Key); v != nil && v.Kind() == constant.String {
+				switch constant.StringVal(v) {
+				case "ColorSpace":
+					cs = kv.Value
+				case "Filter":
+					if fid, isId := core.Unparen(kv.Value).(*ast.Ident); isId {
+						if _, isVar := core.ObjOf(info, fid).(*types.Var); isVar {
+							hasFilterVar = true
+						}
+					}
+				}
+			}
+		}
+		if cs != nil && hasFilterVar {
+			csVal = cs
+		}
+		return true
+	})
+	if csVal == nil {
+		r.Fail("E5.jpeg-colorspace", key, c.Pos(fd.Pos()), "the image dictionary (with a variable /Filter) was not found")
+		return
+	}
+	id, isVar := core.Unparen(csVal).(*ast.Ident)
+	okRule := false
+	if isVar {
+		o := core.ObjOf(info, id)
+		// assigned under a type assertion / type switch on the image
+		ast.Inspect(fd.Body, func(m ast.Node) bool {
+			is, ok := m.(*ast.IfStmt)
+			if !ok {
+				return true
+			}
+			typeTest := false
+			for _, n := range []ast.Node{is.Init, is.Cond} {
+				if n == nil {
+					continue
+				}
+				ast.Inspect(n, func(k ast.Node) bool {
+					if ta, ok := k.(*ast.TypeAssertExpr); ok {
+						if tid, ok := core.Unparen(ta.X).(*ast.Ident); ok && core.ObjOf(info, tid) == imgObj {
+							typeTest = true
+						}
+					}
+					return true
+				})
+			}
+			if !typeTest {
+				return true
+			}
+			ast.Inspect(is.Body, func(k ast.Node) bool {
+				if as, ok := k.(*ast.AssignStmt); ok {
+					for _, l := range as.Lhs {
+						if lid, ok := l.(*ast.Ident); ok && core.ObjOf(info, lid) == o {
+							okRule = true
+						}
+					}
+				}
+				return true
+			})
+			return true
+		})
+	}
+	if okRule {
+		r.OK("E5.jpeg-colorspace", key, c.Pos(csVal.Pos()), "")
+	} else {
+		r.Fail("E5.jpeg-colorspace", key, c.Pos(csVal.Pos()), fmt.Sprintf("/ColorSpace is `%s` whatever the image, but jpeg.Encode writes one component for *image.Gray: the stream of a grayscale image does not match the declared colour space", c.Src(csVal)))
+	}
+	r.Count("E5.jpeg-branches", 1)
+	r.Floor("E5.jpeg-branches", 1)
+}
